@@ -194,6 +194,7 @@ func runC02Map(c *Ctx) {
 			}
 		}
 	}
+	c02MapIterators(c)
 }
 
 func isConstLike(own *Own, fn *ssa.Function, v ssa.Value) bool {
